@@ -83,7 +83,8 @@ struct SocketImpl
   std::shared_ptr<SockAddrStorage> GetSockName() const;
   std::shared_ptr<SockAddrStorage> GetPeerName() const;
 
-  virtual void DriverQuery(short &events);
+  /// @return  true if received data is held already (which poll would not report), false otherwise
+  virtual bool DriverQuery(short &events);
   virtual void DriverPending();
 };
 
